@@ -241,6 +241,7 @@ class ListV(V):
         self.kind = kind           # 'list' | 'set' | 'gen'
         self.uid = next(_uid)
         self.open_path = []        # [(fid, container list)]
+        self.born = 0
         self.sorted_flag = None
         self.log = []              # in-place operations applied ('sort', 'pop', ...)
 
